@@ -63,4 +63,5 @@ type workItem struct {
 	*QueuedWork
 	workToDo       Work
 	adjustPriority func() int
+	seq            uint64 // arrival number at the dispatcher; breaks ties between equal priorities (first come, first served)
 }
